@@ -40,6 +40,9 @@ func C05(e *Env) {
 	c05Wiring(e, "R05.2", "ValidateServicesScopes")
 	c05Validator(e)
 	freshRule(e, "R05.4", 6, outputRel)
+	mergeLiteralRule(e, "mergeService", "Service")
+	r.Rule("R09.1", "a declared scope survives the multi-file merge: Service.Scope is merged like every scalar attribute, later non-nil wins (merge wiring shared with C09)", 11)
+	r.Rule("R09.1c", "behaviour classes of the merge combinators (shared with C09)", 4)
 	loopExitRule(e, "R05.3", outputRel, "a dependency that sorts after the first non-service dependency is never inspected", "ValidateServicesScopes", "Output.BuildDependencyGraph", "Service.AllArgs")
 	r.NotCovered = append(r.NotCovered,
 		"instance identity per scope at run time (once per container / per Get / per context) is the runtime library's behaviour",
